@@ -24,6 +24,7 @@ EXPLANATION = (
     "re-index flag), every consumer drains the generator synchronously, filters compare the attribute with the parameter "
     "of the same name. Time order of events across bars is C12; long histories are covered through the re-index "
     "discipline, not by execution."
+    " C05.2 also: the matching loop is on every normal path of on_bar_event. C05.5 is decided on CFG path conditions (what holds on every path to the yield / the append / the swap), independent of nesting and names."
 )
 TRUSTED = ["CPython ast parser", "mypy callee resolution / class hierarchy", "sa.cfg", "sa.absint (shared exploration with C04)"]
 
